@@ -283,7 +283,12 @@ class S:
         if q is None:
             return NotImplemented
         same = o is s or (isinstance(o, S) and o.p == s.p)
-        return mk(p_mul(s.p, q), same or (s.nn and _nn(o)))
+        a = s.p
+        if len(a) > 1 and len(q) > 1 and len(a) * len(q) > EXPAND_LIMIT:
+            # keep big products factored: name the factors (definition atoms) instead of expanding
+            a = _defpoly(a, s.nn)
+            q = a if same else _defpoly(q, _nn(o))
+        return mk(p_mul(a, q), same or (s.nn and _nn(o)))
     __rmul__ = __mul__
 
     def __truediv__(s, o):
@@ -371,6 +376,14 @@ def _nn(v):
         return v.nn
     f = to_fr(v)
     return f is not None and f >= 0
+
+
+EXPAND_LIMIT = 400
+
+
+def _defpoly(p, nn=False):
+    aid = CTX.atom(('def', p_key(p)), lambda: ('def', p))
+    return {((aid, 1),): Fr(1)}
 
 
 def mkcmp(op, p):
@@ -780,6 +793,7 @@ class Ctx:
         self.counters = {}
         self.nonzero_known = set()
         self.nonneg_known = set()
+        self.tie_count = 0
 
     # -- atoms --------------------------------------------------------------------
     def var(self, name, nn=False):
@@ -835,6 +849,8 @@ class Ctx:
             elif k == 'abs':
                 x = p_num(a[1])
                 v = abs(x) if x is not None else None
+            elif k == 'def':
+                v = p_num(a[1])
             elif k in ('max', 'min'):
                 x, y = p_num(a[1]), p_num(a[2])
                 v = (max(x, y) if k == 'max' else min(x, y)) if x is not None and y is not None else None
@@ -862,6 +878,8 @@ class Ctx:
         elif k == 'abs':
             e = self.poly_z(a[1], lin)
             r = z3.If(e >= 0, e, -e)
+        elif k == 'def':
+            r = self.poly_z(a[1], lin)
         elif k == 'max':
             x, y = self.poly_z(a[1], lin), self.poly_z(a[2], lin)
             r = z3.If(x >= y, x, y)
@@ -894,7 +912,7 @@ class Ctx:
             return False
         if k in ('sqrt', 'div'):
             return True
-        if k == 'abs':
+        if k in ('abs', 'def'):
             return self.poly_nonlinear(a[1])
         if k in ('max', 'min'):
             return self.poly_nonlinear(a[1]) or self.poly_nonlinear(a[2])
